@@ -23,6 +23,7 @@ RULE = (
     "(i) alphabet per evaluator configuration c (quick: c1 = UNMATCHED + default metric lists, c2 = UNMATCHED + explicit lists, groups, decision, asymmetric handler; thorough: + c0 = all defaults (MATCHED), c3 = SEMANTIC): "
     "newE(c), evaluate(x0|x1|x2), evaluate(x0, save_group_times=True), evaluate(x0, result_all=False, log_times=True, verbose=True), read resulting_metric_keys, save_to_config, new aggregator(log_times F|T), aggregator.evaluate; "
     "+ new default EdgeCaseHandler, direct panoptic_evaluate with defaults; ALL histories of length <= 3 (thorough <= 4 on the quick alphabet), each in a pristine forked process; "
+    "semantic histories: ALL histories of length <= 4 (thorough 5) over {new evaluator, new evaluator sharing the approximator object, evaluate 1-D / 2-D / 3-D input with diagonal contacts on either evaluator}; "
     "(ii) result_all{T,F} x save_group_times{None,T,F} x log_times{None,T,F} x verbose{None,T,F} x constructor flags 2^3 x 3 inputs x 2 configurations; "
     "(iii) all pairs of G1(4,2) with >= 2 tasks: serial vs every task execution order of each pool call; 64 (thorough 512) inputs with the real multiprocessing.Pool. "
     "non-trivial = histories in which an evaluator is used after another object was constructed or used; distinct by history / option tuple / input"
@@ -307,6 +308,62 @@ def _history_child(hist, base):
     return viol
 
 
+# ------------------------------------------------------------------------------------------------ semantic histories
+SEMX = [
+    (np.array([1, 1, 0, 2, 2, 0, 1], dtype=np.uint8), np.array([1, 1, 1, 0, 2, 0, 1], dtype=np.uint8)),
+    (np.array([[1, 0, 0, 2], [0, 1, 0, 2], [0, 0, 0, 0]], dtype=np.uint8), np.array([[1, 0, 0, 2], [0, 1, 2, 0], [0, 0, 0, 1]], dtype=np.uint8)),
+    (np.array([[[1, 0], [0, 0]], [[0, 0], [0, 1]]], dtype=np.uint8), np.array([[[1, 0], [0, 2]], [[0, 0], [0, 1]]], dtype=np.uint8)),
+]
+SEM_OPS = [("newE",), ("newShared",), ("eval", 0), ("eval", 1), ("eval", 2), ("evalOther", 1), ("evalOther", 2)]
+
+
+def _sem_new(approx=None):
+    from panoptica import ConnectedComponentsInstanceApproximator, Panoptica_Evaluator
+    from panoptica.instance_matcher import NaiveThresholdMatching
+
+    approx = approx or ConnectedComponentsInstanceApproximator()
+    return Panoptica_Evaluator(expected_input=ITYPE["SEMANTIC"], instance_approximator=approx, instance_matcher=NaiveThresholdMatching()), approx
+
+
+def _sem_baseline_child():
+    out = {}
+    for x in range(len(SEMX)):
+        ev, _ = _sem_new()
+        out[x] = obs_of(ev.evaluate(SEMX[x][0].copy(), SEMX[x][1].copy(), verbose=False))
+    return out
+
+
+def _sem_history_child(hist, base):
+    viol = []
+    ev, approx = _sem_new()
+    other = None
+    for i, op in enumerate(hist):
+        where = f"after {list(hist[:i])} the operation {op}"
+        try:
+            if op[0] == "newE":
+                ev, approx = _sem_new()
+            elif op[0] == "newShared":
+                other, _ = _sem_new(approx)
+            elif op[0] in ("eval", "evalOther"):
+                if op[0] == "evalOther" and other is None:
+                    other, _ = _sem_new(approx)
+                e = ev if op[0] == "eval" else other
+                x = op[1]
+                p, r = SEMX[x][0].copy(), SEMX[x][1].copy()
+                got = obs_of(e.evaluate(p, r, verbose=False))
+                if not np.array_equal(p, SEMX[x][0]) or not np.array_equal(r, SEMX[x][1]):
+                    viol.append(("C15:input_mutated", f"{where} modified the caller's arrays"))
+                d = same_results(base[x], got)
+                if d:
+                    viol.append(("C15:result_depends_on_history:shared_component", f"{where} ({SEMX[x][0].ndim}-D semantic input) reports different metrics than a fresh evaluator in a fresh process: {d[:6]}"))
+        except Exception as e:
+            viol.append((f"C15:operation_raised:{op[0]}:{type(e).__name__}", f"{where} raised {e!r}"))
+    return viol
+
+
+_SEMBASE: list = []
+
+
 # ------------------------------------------------------------------------------------------------ blocks
 def blocks(tier):
     B = []
@@ -323,6 +380,8 @@ def blocks(tier):
         ops2 = alphabet((0, 3))
         for first in range(len(ops2)):
             B.append(("hist", (0, 3), 3, first))
+    for first in range(len(SEM_OPS)):
+        B.append(("semhist", 4 if tier == "quick" else 5, first))
     for c in (1, 2):
         for x in range(3):
             B.append(("opts", c, x))
@@ -349,6 +408,11 @@ def run_block(block, acc):
         ops = alphabet(cfgs)
         for rest in itertools.product(range(len(ops)), repeat=2):
             run_case({"kind": "hist", "configs": list(cfgs), "history": [first, second] + list(rest)}, acc)
+    elif kind == "semhist":
+        _, depth, first = block
+        for L in range(1, depth + 1):
+            for rest in itertools.product(range(len(SEM_OPS)), repeat=L - 1):
+                run_case({"kind": "semhist", "history": [first] + list(rest)}, acc)
     elif kind == "opts":
         _, c, x = block
         for ra in (True, False):
@@ -382,6 +446,23 @@ def run_case(case, acc):
         acc.outcome(tuple(v[0] for v in viol))
         if acc.evaluations % 1499 == 1:
             acc.sample({"history": [list(o) for o in hist]})
+        for sig, msg in viol:
+            acc.violation(sig, {**case, "ops": [list(o) for o in hist]}, msg)
+        if not viol:
+            acc.ok()
+    elif kind == "semhist":
+        hist = [SEM_OPS[i] for i in case["history"]]
+        acc.case("semhist", tuple(case["history"]))
+        if not _SEMBASE:
+            _SEMBASE.append(in_child(_sem_baseline_child))
+        acc.step(len(hist))
+        viol = in_child(_sem_history_child, hist, _SEMBASE[0])
+        acc.state("semhist", tuple(case["history"]))
+        if len({o[1] for o in hist if len(o) > 1}) >= 2:
+            acc.nontriv("semhist", tuple(case["history"]))
+        acc.outcome(tuple(v[0] for v in viol))
+        if acc.evaluations % 499 == 1:
+            acc.sample({"semantic_history": [list(o) for o in hist]})
         for sig, msg in viol:
             acc.violation(sig, {**case, "ops": [list(o) for o in hist]}, msg)
         if not viol:
